@@ -9,7 +9,7 @@ Not decided: round trips through jit / vmap (JAX / penzai behaviour; declined).
 """
 import ast
 
-from ..rules import is_call, is_mcall, mentions
+from ..rules import Arms, is_call, is_mcall, mentions
 from ..terms import C, Evaluator, G, P, is_t, mk_proj, show, subterms
 from .C08 import propagate
 
@@ -83,7 +83,7 @@ def run(chk, prog):
         okp = rr == ("ctor", "Closure", (P("args"), P("$fn")), ())
     chk.require(okp, "PYTREE-FIELDS", "Pytree.partial", "Closure(args, fn)", derived=show(r.ret), expected="lambda fn: Closure(args, fn)", where=W(Pc, "partial"))
     rc = Evaluator(prog).eval_fn(Pc.methods["const"], Pc.module, Pc)
-    got = {}
+    got = Arms()
     for conds, ret in rc.returns:
         got["const" if any(is_t(t, "isinst") and t[2] == "Const" and p for t, p in conds) else "other"] = ret
     chk.require(got.get("const") == P("v") and got.get("other") == ("ctor", "Const", (P("v"),), ()), "PYTREE-FIELDS", "Pytree.const", "the WHOLE value wrapped in one Const (compound constants are not mapped leafwise)",
@@ -92,7 +92,7 @@ def run(chk, prog):
         fn = Pc.methods[meth]
         inner = prog.nested(fn, "_inner")
         ri = Evaluator(prog).eval_fn(inner, Pc.module, Pc)
-        got = {}
+        got = Arms()
         for conds, ret in ri.returns:
             pos = [t for t, p in conds if p]
             if any(is_t(t, "isinst") and t[2] == "Const" for t in pos):
